@@ -324,6 +324,11 @@ func cmdRun(args []string) int {
 	}
 	var replayPath string
 	if len(founds) > 0 {
+		rc := map[string]int{}
+		for _, f := range founds {
+			rc[f.v.Rule]++
+		}
+		fmt.Printf("vcheck: violations by rule: %v\n", rc)
 		sort.Slice(founds, func(i, j int) bool {
 			if founds[i].v.Rule != founds[j].v.Rule {
 				return founds[i].v.Rule < founds[j].v.Rule
